@@ -17,7 +17,37 @@ let rec labels_of_wire (w : n list) : n list list =
       let (lab, rest) = take k t in
       lab :: labels_of_wire rest
 let crec o c t r d = { r_owner = labels_of_wire (b o); r_class = nn c; r_ttl = nn t; r_rtype = nn r; r_rdata = b d }
+let fval_of kind (v : string) : fval =
+  match int_of_n kind with
+  | 1 -> VU8 (nn v) | 2 -> VU16 (nn v) | 3 -> VU32 (nn v)
+  | 4 -> VNameLc (labels_of_wire (b v)) | 5 -> VNameRaw (labels_of_wire (b v))
+  | 6 -> VStr (b v) | 7 -> VOcts (b v) | 8 -> VPfx (b v) | 9 -> VBitmap (b v)
+  | _ -> failwith "bad kind"
+let show_tok = function
+  | TB v -> Printf.sprintf "b%02x" (int_of_n v)
+  | TW v -> Printf.sprintf "w%04x" (int_of_n v)
+  | TD v -> Printf.sprintf "d%08x" (int_of_n v)
+  | TN v -> Printf.sprintf "n%d" (int_of_n v)
+  | TR l -> "r" ^ hex_of_bytes l
+let rec split_bar acc = function
+  | [] -> (List.rev acc, [])
+  | "|" :: rest -> (List.rev acc, rest)
+  | x :: rest -> split_bar (x :: acc) rest
+let rdx code rest =
+  let kinds = c04_rd_kinds (nn code) in
+  let (va, vb) = split_bar [] rest in
+  if List.length va <> List.length kinds || List.length vb <> List.length kinds then "BAD-ARITY" else
+  let a = List.map2 fval_of kinds va and bb = List.map2 fval_of kinds vb in
+  let e = (match c04_rd_eq (nn code) a bb with Some x -> sb x | None -> "?") in
+  let c = (match c04_rd_ccmp (nn code) a bb with Ok c -> str_cmp c | _ -> "Panic") in
+  let h = c04_rd_hash (nn code) a in
+  e ^ " " ^ c ^ " " ^ (if h = [] then "-" else String.concat "," (List.map show_tok h))
+let mkh o t c l r = { h_owner = labels_of_wire (b o); h_rtype = nn t; h_class = nn c; h_ttl = nn l; h_rdlen = nn r }
 let handle = function
+  | "rdx" :: code :: rest -> rdx code rest
+  | ["hdr"; o1; t1; c1; l1; r1; o2; t2; c2; l2; r2] ->
+      let (x, y) = (mkh o1 t1 c1 l1 r1, mkh o2 t2 c2 l2 r2) in
+      sb (c04_header_eq x y) ^ " " ^ str_cmp (c04_header_cmp x y)
   | ["lower"; x] -> string_of_int (int_of_n (c04_lower (nn x)))
   | ["leq"; x; y] -> sb (c04_label_eq (b x) (b y))
   | ["lcmp"; x; y] -> str_cmp (c04_label_cmp (b x) (b y))
